@@ -200,8 +200,18 @@ fn harness_method(did: &str, fragment: &str, salt: u8) -> VerificationMethod {
   for (i, b) in did.bytes().chain(fragment.bytes()).enumerate() {
     x[i % 32] ^= b.wrapping_mul(31).wrapping_add(i as u8);
   }
-  let jwk: identity_jose::jwk::Jwk =
-    serde_json::from_value(serde_json::json!({"kty":"OKP","crv":"Ed25519","alg":"EdDSA","x": ks::b64(&x)})).unwrap();
+  let mut jwk_json = serde_json::json!({"kty":"OKP","crv":"Ed25519","alg":"EdDSA","x": ks::b64(&x)});
+  // optional JWK members as they arrive from other producers, empty lists included
+  match salt % 11 {
+    4 => jwk_json["key_ops"] = serde_json::json!([]),
+    5 => jwk_json["key_ops"] = serde_json::json!(["verify"]),
+    6 => jwk_json["x5c"] = serde_json::json!([]),
+    7 => jwk_json["use"] = "sig".into(),
+    _ => {}
+  }
+  let jwk: identity_jose::jwk::Jwk = serde_json::from_value(jwk_json).unwrap_or_else(|_| {
+    serde_json::from_value(serde_json::json!({"kty":"OKP","crv":"Ed25519","alg":"EdDSA","x": ks::b64(&x)})).unwrap()
+  });
   let mut m = VerificationMethod::new_from_jwk(CoreDID::parse(did).unwrap(), jwk, Some(fragment)).expect("harness method builds");
   // one method in five carries its key as publicKeyMultibase instead of a JWK, one in seven as publicKeyBase58
   if salt % 5 == 2 || salt % 7 == 3 {
@@ -1541,6 +1551,12 @@ impl Engine for StorEngine {
     if prop == "C04" && !ctx::has_violation() && ctx::choose(12) == 0 {
       relative_url_without_fragment();
     }
+    if prop == "C09" && !ctx::has_violation() && ctx::choose(12) == 0 {
+      double_import_purge();
+    }
+    if prop == "C04" && !ctx::has_violation() && ctx::choose(16) == 0 {
+      octet_before_delimiter_id();
+    }
     if prop == "C04" && !ctx::has_violation() && ctx::choose(16) == 0 {
       custom_method_data_with_property();
     }
@@ -1638,6 +1654,110 @@ fn lookalike_reference_and_insert() {
         rt.err()
       ),
     );
+  }
+}
+
+/// A method id built with the library's own validating setters whose path or query ENDS in a percent-encoded octet
+/// (`did:..?versionId=%41#k1`, `did:../my%20files%2F#k1`): legal DID URL syntax, accepted by `insert_method`. The
+/// document has to survive its own JSON form.
+fn octet_before_delimiter_id() {
+  let did = "did:sim:pct";
+  let mut doc = CoreDocument::builder(Default::default()).id(CoreDID::parse(did).unwrap()).build().expect("empty doc");
+  let Ok(mut u) = DIDUrl::parse(format!("{did}#k1")) else { return };
+  let set = match ctx::choose(2) {
+    0 => u.set_query(Some("versionId=%41")),
+    _ => u.set_path(Some("/my%20files%2F")),
+  };
+  if set.is_err() {
+    return;
+  }
+  let mid = u.to_string();
+  let mut m = harness_method(did, "k1", 9);
+  if m.set_id(u).is_err() {
+    return;
+  }
+  let scope: Scope = if ctx::choose(2) == 0 { None } else { Some(ctx::choose(5)) };
+  if doc.insert_method(m, to_scope(scope)).is_err() {
+    ctx::stat("observation.octet_before_delimiter_id_refused");
+    return;
+  }
+  ctx::stat("probe.method_id_with_octet_before_delimiter");
+  ctx::sched("pctid", mid.len() as u64);
+  let r = doc
+    .to_json()
+    .map_err(|e| format!("to_json failed: {e}"))
+    .and_then(|j| CoreDocument::from_json(&j).map_err(|e| format!("own JSON rejected: {e}")))
+    .and_then(|back| if back == doc { Ok(()) } else { Err("JSON round trip yields a different document".to_owned()) });
+  if let Err(e) = r {
+    ctx::violation(
+      "C04",
+      "C04.round_trip",
+      "method-id-with-percent-octet-before-delimiter/does-not-survive-json",
+      format!("document with method id {mid} (built with the validating setters, accepted by insert_method): {e}"),
+    );
+  }
+}
+
+/// One private key imported twice (`insert` + `insert_method` + `insert_key_id`, as an application that brings its own
+/// keys does), under two method ids. Purging one of the methods completes: that method, ITS key (key id) and ITS key-id
+/// entry are gone, the other method keeps working.
+fn double_import_purge() {
+  use crate::core::exec::block_on;
+  let did = "did:sim:imports";
+  let storage: Storage<JwkMemStore, KeyIdMemstore> = Storage::new(JwkMemStore::new(), KeyIdMemstore::new());
+  let mut doc = CoreDocument::builder(Default::default()).id(CoreDID::parse(did).unwrap()).build().expect("empty doc");
+  let seed = ctx::bytes(32);
+  let mut seed32 = [0u8; 32];
+  seed32.copy_from_slice(&seed);
+  let sk = crypto::signatures::ed25519::SecretKey::from_bytes(&seed32);
+  let x = ks::b64(sk.public_key().as_ref());
+  let private: identity_jose::jwk::Jwk =
+    serde_json::from_value(serde_json::json!({"kty":"OKP","crv":"Ed25519","alg":"EdDSA","x": x, "d": ks::b64(&seed32)})).unwrap();
+  let public: identity_jose::jwk::Jwk = serde_json::from_value(serde_json::json!({"kty":"OKP","crv":"Ed25519","alg":"EdDSA","x": x})).unwrap();
+  let mut imported: Vec<(String, KeyId, MethodDigest)> = Vec::new();
+  for frag in ["imp1", "imp2"] {
+    let Ok(key_id) = block_on(storage.key_storage().insert(private.clone())) else { return };
+    let Ok(method) = VerificationMethod::new_from_jwk(CoreDID::parse(did).unwrap(), public.clone(), Some(frag)) else { return };
+    let Ok(digest) = MethodDigest::new(&method) else { return };
+    let scope: Scope = if ctx::choose(2) == 0 { None } else { Some(ctx::choose(5)) };
+    if doc.insert_method(method, to_scope(scope)).is_err() {
+      return;
+    }
+    if block_on(storage.key_id_storage().insert_key_id(digest.clone(), key_id.clone())).is_err() {
+      return;
+    }
+    imported.push((frag.to_owned(), key_id, digest));
+  }
+  ctx::stat("probe.one_key_imported_under_two_method_ids");
+  let which = ctx::choose(2);
+  ctx::sched("double-import", which as u64);
+  let (gone, kept) = (&imported[which], &imported[1 - which]);
+  let id = DIDUrl::parse(format!("{did}#{}", gone.0)).unwrap();
+  match block_on(doc.purge_method(&storage, &id)) {
+    Err(e) => ctx::violation("C09", "C09.ok_complete", "double-import/purge-fails", format!("purge_method of #{} failed without any storage fault: {e}", gone.0)),
+    Ok(()) => {
+      let key_left = block_on(storage.key_storage().exists(&gone.1)).unwrap_or(true);
+      let key_id_left = block_on(storage.key_id_storage().get_key_id(&gone.2)).is_ok();
+      if doc.resolve_method(gone.0.as_str(), None).is_some() || key_left || key_id_left {
+        ctx::violation(
+          "C09",
+          "C09.ok_complete",
+          "double-import/purged-method-leaves-key-behind",
+          format!("purge_method(#{}) returned Ok but its key exists: {key_left}, its key id is recorded: {key_id_left}", gone.0),
+        );
+      }
+      let other_key = block_on(storage.key_storage().exists(&kept.1)).unwrap_or(false);
+      let other_key_id = block_on(storage.key_id_storage().get_key_id(&kept.2)).map(|k| k == kept.1).unwrap_or(false);
+      let signs = block_on(doc.create_jws(&storage, kept.0.as_str(), b"still here", &JwsSignatureOptions::default())).is_ok();
+      if !other_key || !other_key_id || !signs {
+        ctx::violation(
+          "C09",
+          "C09.ok_complete",
+          "double-import/other-method-damaged",
+          format!("after purging #{} the method #{} has key: {other_key}, key id: {other_key_id}, signs: {signs}", gone.0, kept.0),
+        );
+      }
+    }
   }
 }
 
